@@ -29,18 +29,22 @@ def groups_world():
         # explicit names are used verbatim (also when they end in `_task`); derived names drop the suffix
         'Exp': {'name': 'export_task', 'group': 'reports:monthly', 'params': [], 'inputs': [bc('Plain')], 'data': 'json'},
         'SomeDerivedTask': {'name': None, 'params': [], 'inputs': [bn('reports:monthly:export_task')], 'data': 'json'},
+        'Cons': {'name': 'cons', 'params': [], 'inputs': [bn('bo::plain'), bn('bo::g:grp')], 'data': 'json'},
     }
     return {
         'name': 'groups',
         'tasks': tasks,
         'configs': {
-            'root': {'medium': 'json', 'tasks': list(tasks), 'values': {}},
+            'root': {'medium': 'json', 'tasks': [t for t in tasks if t not in ('Cons',)], 'values': {}},
             'outer': {'medium': 'yaml', 'tasks': [], 'values': {}, 'uses': [{'config': 'root', 'as': 'o'}]},
             'outer2': {'medium': 'yaml', 'tasks': [], 'values': {}, 'uses': [{'config': 'outer', 'as': 'p'}]},
+            # a consumer inside namespace `o` (and `x`) reading a task of the sub-namespace `bo` (`x`): own-namespace text recurs in the input name
+            'mid_o': {'medium': 'json', 'tasks': ['Cons'], 'values': {}, 'uses': [{'config': 'root', 'as': 'bo'}]},
+            'top_o': {'medium': 'json', 'tasks': [], 'values': {}, 'uses': [{'config': 'mid_o', 'as': 'o'}]},
         },
         'root': 'root',
         'variants': {'v0': [], 'v1': [[['configs', 'root', 'values', 'p'], 1]], 'vo': [[['root'], 'outer']], 'vp': [[['root'], 'outer2']],
-                     'vq': [[['configs', 'root', 'values', 'q'], 't']]},
+                     'vq': [[['configs', 'root', 'values', 'q'], 't']], 'vbo': [[['root'], 'top_o']]},
     }
 
 
@@ -55,7 +59,8 @@ def values_for(tier):
     objs = [{'__obj__': 'Auto1', 'kwargs': {'a': 1}}, {'__obj__': 'Auto1', 'args': [1, 2]}, {'__obj__': 'Auto1', 'kwargs': {'a': 'x', 'verbose': True}},
             {'__obj__': 'Auto1', 'kwargs': {'a': [1, 'y']}}, {'__obj__': 'Auto2', 'kwargs': {'a': 1}}, {'__obj__': 'Auto2', 'kwargs': {'a': 1, 'c': 5}},
             {'__obj__': 'Auto2', 'kwargs': {'a': 1, 'c': 6}}, {'__obj__': 'Hand1', 'args': ['h']}, {'__obj__': 'Plain1', 'args': [1, 'b']},
-            {'__obj__': 'Plain1', 'kwargs': {'a': [1, {'k': 'v'}]}}, [{'__obj__': 'Hand1', 'args': [1]}, 2]]
+            {'__obj__': 'Plain1', 'kwargs': {'a': [1, {'k': 'v'}]}}, [{'__obj__': 'Hand1', 'args': [1]}, 2],
+            {'__obj__': 'AutoBoth', 'kwargs': {'cols': ['z', 'a', 'm']}}, {'__obj__': 'AutoBoth', 'args': [[3, 1, 2]]}]
     return vals, objs
 
 
